@@ -582,7 +582,7 @@ def main():
     os.makedirs(D, exist_ok=True)
     extra_c06 = ""
     if os.path.exists("/verif/coq/proofs/FaultClone.v"):
-        P["C06"] = (P["C06"][0], " FaultClone", P["C06"][2] + C06_CLONE)
+        P["C06"] = (P["C06"][0], " FaultClone LedgerSpec", P["C06"][2] + C06_CLONE)
     else:
         P["C06"] = (P["C06"][0], "", P["C06"][2])
     if not os.path.exists("/verif/coq/proofs/LedgerSpec.v"):
